@@ -249,6 +249,11 @@ class LockDir(lock.Lock):
                 self._trace("... contention, %s", e)
                 other_holder = self.peek()
                 self._trace(f"other holder is {other_holder!r}")
+                if other_holder is not None and other_holder.nonce == self.nonce:
+                    # The rename did take effect although it reported an
+                    # error (e.g. the reply was lost): the lock is ours,
+                    # go on to confirm it.
+                    break
                 try:
                     self._handle_lock_contention(other_holder)
                 except BaseException:
